@@ -107,6 +107,7 @@ inductive Err where
   | value        -- Python ValueError
   | assertion    -- Python AssertionError
   | internal     -- SourmashError::Internal
+  | niffler      -- niffler: file too short / compression feature not compiled in -> sourmash.exceptions.NifflerError
   | mh (e : MH.Err)
 deriving DecidableEq, Repr
 
@@ -413,6 +414,40 @@ def pickleMH (m : MH) : Except Err MH := do
   let kState := if m.hf = 1 then k else k * 3
   pure (Sm.Py.setState m.num kState (hfOfFlags (flagsOf m.hf)) m.seed m.trackAbundance m.maxHash (hashes m))
 
+/-- the tuple `MinHash.__getstate__` returns (its seventh slot is always `None`): everything a
+    pickle of a sketch carries.  There is no md5 in it. -/
+structure MHState where
+  num : Nat
+  ksize : Nat                 -- the STORED k (`self.ksize * 3` for protein-like sketches, see #2262)
+  isProtein : Bool
+  dayhoff : Bool
+  hp : Bool
+  hashes : List (Nat × Nat)   -- the `hashes` dict: hash -> abundance (1 for flat sketches)
+  track : Bool
+  maxHash : Nat
+  seed : Nat
+deriving DecidableEq, Repr
+
+/-- `MinHash.__getstate__` -/
+def getState (m : MH) : Except Err MHState := do
+  let k ← ksizeProp m
+  let f := flagsOf m.hf
+  pure { num := m.num, ksize := if m.hf = 1 then k else k * 3, isProtein := f.1, dayhoff := f.2.1, hp := f.2.2,
+         hashes := hashes m, track := m.trackAbundance, maxHash := m.maxHash, seed := m.seed }
+
+/-- `MinHash.__setstate__` / `FrozenMinHash.__setstate__` -/
+def ofState (s : MHState) : MH :=
+  Sm.Py.setState s.num s.ksize (hfOfFlags (s.isProtein, s.dayhoff, s.hp)) s.seed s.track s.maxHash s.hashes
+
+/-- the arguments `SourmashSignature.__reduce__` hands to the constructor: the sketch (pickled as its
+    own state), the name and the filename.  License, class, email, version and hash_function are not
+    among them. -/
+structure SigState where
+  minhash : MHState
+  name : String
+  filename : String
+deriving DecidableEq, Repr
+
 /-! ### Python: `SourmashSignature` -/
 
 /-- `SourmashSignature(minhash, name=, filename=)`: a default envelope, `if name:` / `if filename:`,
@@ -430,6 +465,15 @@ def filenameOf (s : Sig) : String := s.filename.getD ""
 def copySig (s : Sig) : Except Err Sig := do
   let mh ← firstMh s
   pure (mkSig mh (nameOf s) (filenameOf s))
+
+/-- `SourmashSignature.__reduce__` -/
+def reduceSig (s : Sig) : Except Err SigState := do
+  let mh ← firstMh s
+  let st ← getState mh.mh
+  pure { minhash := st, name := nameOf s, filename := filenameOf s }
+
+/-- unpickling: `SourmashSignature(minhash, name, filename)` on the rebuilt sketch -/
+def ofSigState (st : SigState) : Sig := mkSig (Sk.ofMH (ofState st.minhash)) st.name st.filename
 
 /-- `pickle.loads(pickle.dumps(sig))`: `__reduce__` pickles the (frozen) sketch -/
 def pickleSig (s : Sig) : Except Err Sig := do
